@@ -2,7 +2,7 @@
    UNREPAIRED model: WrapRequest without the empty-name refusal forwards a request of an authenticated
    identity with an empty name; the upstream then sees an empty Impersonate-User, which a kube-apiserver
    reads as "no impersonation": it acts as the bearer of the credential, i.e. as the gateway. *)
-From KG Require Import Prelude C02_Model C02_Spec.
+From KG Require Import Prelude C02_Model C02_Spec C02_HistModel C02_HistSpec.
 Open Scope Z_scope.
 Open Scope string_scope.
 Open Scope list_scope.
@@ -41,3 +41,18 @@ Proof.
   eexists. vm_compute. repeat split.
 Qed.
 Print Assumptions C02_identity_exact_refuted_unrepaired.
+
+(* The CURRENT code (not repaired; reported): a server name that moves between two LIVE clusters keeps the
+   decision cache of its previous owner (the cache is keyed by host, its lifetime is tied to the cluster
+   that created it).  History H1: alias h of cluster a (allows alice>bob) is given to cluster b (denies);
+   within the allow-TTL the request via h is forwarded to b without b's authorizer being asked.  So the
+   hypothesis "no live move" of C02_decision_of_current_cluster cannot be dropped. *)
+Theorem C02_live_move_refuted :
+  exists attl dttl ops,
+    hcheck attl world0 [] (combine ops (hrun attl dttl hstate0 ops)) <> (true, true).
+Proof.
+  exists 300, 30, [HCreate "a" ["h"] [(("alice", "bob"), AAllow)]; HCreate "b" [] [(("alice", "bob"), ADeny)];
+                   HReq "h" "alice" "bob"; HMove "h" "a" "b"; HReq "h" "alice" "bob"].
+  vm_compute. discriminate.
+Qed.
+Print Assumptions C02_live_move_refuted.
